@@ -2,7 +2,7 @@
 # usage: silence.sh <variant> <seconds per job> [seed]   -- runs every (engine, family, profile) of the simulator binary on /repo's tree and prints
 # every violation that is not the open C08 finding.  Used while developing; the registered checks do the same through the driver.
 V=${1:-plain}; S=${2:-2}; SEED=${3:-1}
-B=$(ls -td /verif/build/$V-*/ | head -1)sim
+B=${SIMBIN:-$(ls -t /verif/build/$V-*/sim | head -1)}
 $B list > /tmp/silence-list.json
 python3 - "$B" "$S" "$SEED" <<'P'
 import json,subprocess,sys,concurrent.futures as cf
